@@ -1,3 +1,250 @@
-/-! # C17 — property theorems (stub: filled in when the property's model is built) -/
+import ScenicModel.Props.C17Angles
+import ScenicModel.Gen.Visibility
+
+/-!
+# C17 — visibility respects the view volume and occlusion
+
+Property theorems, instantiated on the configuration regenerated from /repo
+(`Scenic.Gen.visCfg`, `visObjCfg`, `visWrapCfg`, written by `tools/translate/visibility.py` on every run;
+the side conditions `gen_*_reference` are re-decided by the kernel on that data).
+
+The general theorems live in `Props/C17Slab.lean` (ray/box geometry), `C17Point.lean` (point predicate),
+`C17Object.lean` (object branch), `C17Cert.lean` / `C17Shadow.lean` (certificates of the object oracles) and `C17Angles.lean`
+(the polynomial comparisons are the angular comparisons of the code, over the reals).
+
+Statement of the property and where each clause is proved:
+
+* "never report as visible something lying wholly outside X's view volume (visible distance and view angles,
+  measured from X's camera position in X's own orientation)":
+  `outside_never_visible` (points), `object_outside_never_visible`, `object_outside_cert` (objects);
+  the meaning of the view volume in terms of distance / azimuth / altitude: `inViewVolume_iff_angles`;
+  camera position and orientation of the three kinds of viewer: `object_viewer`, `oriented_viewer`, `point_viewer`.
+* "or whose every line of sight is blocked by an occluding object":
+  `blocked_never_visible` (points), `object_hidden_never_visible` (objects), and the checkable form
+  `object_hidden_behind_box` (the eight corners blocked by one box ⇒ the whole target hidden; `segMeets_lerp`:
+  the shadow of a convex occluder is convex).
+* "With nothing occluding, a point is reported visible exactly when it lies inside the view volume":
+  `point_visible_iff_in_view_volume`; with box occluders the exact characterisation is `point_visible_iff_clear`
+  together with `occlusion_sound` / `occlusion_complete`.
+* "and an object whenever a substantial part of it does": NOT a theorem of the model — it depends on the ray
+  grid, which is not modelled.  What is proved is the certificate used by the oracle on the real code
+  (`insideCert_sound`: the certified part really lies inside the view volume) and, for the model, that the centre
+  shortcut makes an object with its centre visible visible (`object_visible_of_centre`).
+  Full statement left unproved: `∀ target, (substantial part of target inside the view volume) → canSee target = true`.
+* "adding occluding objects can turn visible into not visible but never the reverse":
+  `occluders_monotone`, `object_occluders_monotone` (for every configuration, not only the reference one).
+* the quantifier "viewer position away from the origin, arbitrary yaw/pitch/roll, camera offsets":
+  `rigid_invariance`, `rigid_invariance_object_viewer`, and `ofQuat_isOrtho` (every rational quaternion gives an
+  admissible orientation).  The code before the repair b69a50bf (`R⁻¹ t - p`) violates rigid invariance:
+  `rotate_first_not_rigid_invariant`.
+-/
 namespace Scenic.C17
+open Scenic.Vis Scenic.Gen
+
+/-! ## side conditions on the generated data -/
+
+/-- the point branch of `visibility.canSee` makes the choices the theorems assume -/
+theorem gen_cfg_reference : visCfg = Cfg.reference := by decide
+
+/-- the object branch of `visibility.canSee` has the shape `objectVisible` models -/
+theorem gen_objcfg_reference : visObjCfg = ObjCfg.reference := by decide
+
+/-- the viewer wrappers and the occluder plumbing make the choices the theorems assume -/
+theorem gen_wrapcfg_reference : visWrapCfg = WrapCfg.reference := by decide
+
+/-! ## what the wrappers hand to `visibility.canSee` -/
+
+/-- `Object.canSee`: camera at `position + R·cameraOffset`, the object's own orientation and view angles -/
+theorem object_viewer (pos : V3) (R : Mat3) (off : V3) (D : Rat) (a0 a1 : Half) :
+    mkViewer visWrapCfg .object pos R off D a0 a1 = ⟨pos.add (R.apply off), R, D, a0, a1⟩ := by
+  rw [gen_wrapcfg_reference]; rfl
+
+/-- `OrientedPoint.canSee`: camera at the position, own orientation and view angles -/
+theorem oriented_viewer (pos : V3) (R : Mat3) (off : V3) (D : Rat) (a0 a1 : Half) :
+    mkViewer visWrapCfg .oriented pos R off D a0 a1 = ⟨pos, R, D, a0, a1⟩ := by
+  rw [gen_wrapcfg_reference]; rfl
+
+/-- `Point.canSee`: no orientation, the full sphere -/
+theorem point_viewer (pos : V3) (R : Mat3) (off : V3) (D : Rat) (a0 a1 : Half) :
+    mkViewer visWrapCfg .point pos R off D a0 a1 = ⟨pos, Mat3.id, D, Half.full, Half.quarter⟩ := by
+  rw [gen_wrapcfg_reference]; rfl
+
+/-- a `Point` viewer sees, with nothing occluding, exactly the points (other than itself) within its visible
+    distance -/
+theorem point_viewer_sees_iff (pos : V3) (R : Mat3) (off : V3) (D : Rat) (a0 a1 : Half) (t : V3) :
+    pointVisible visCfg (mkViewer visWrapCfg .point pos R off D a0 a1) t [] = true ↔
+      (0 ≤ D ∧ (t.sub pos).normSq ≤ D * D) ∧ t ≠ pos := by
+  rw [point_viewer, gen_cfg_reference, pointVisible_iff]
+  simp only [List.not_mem_nil, false_imp_iff, implies_true, and_true, relVec_ref, distOK_ref, Mat3.id_applyT]
+  rw [inWindows_ref]
+  have hne : t.sub pos ≠ V3.zero ↔ t ≠ pos := not_congr V3.sub_eq_zero
+  constructor
+  · rintro ⟨hd, hv, _, _⟩
+    exact ⟨hd, hne.mp hv⟩
+  · rintro ⟨hd, hv⟩
+    refine ⟨hd, hne.mpr hv, ?_, ?_⟩
+    · rw [azOK_ref]
+      show if (t.sub pos).y * (t.sub pos).y + (t.sub pos).x * (t.sub pos).x = 0 then (-1 : Rat) ≤ 0
+        else GeMulSqrt (t.sub pos).y (-1) ((t.sub pos).y * (t.sub pos).y + (t.sub pos).x * (t.sub pos).x)
+      split
+      · norm_num
+      · unfold GeMulSqrt
+        rw [if_neg (by norm_num)]
+        right
+        nlinarith [mul_self_nonneg (t.sub pos).x]
+    · rw [altOK_ref, V3.normSq_def]
+      show _ ≤ (1 : Rat) * 1 * _
+      nlinarith [mul_self_nonneg (t.sub pos).x, mul_self_nonneg (t.sub pos).y]
+
+/-! ## the point predicate, on the generated configuration -/
+
+/-- **point_visible_iff_in_view_volume** — with nothing occluding, a point is reported visible exactly when it lies
+    inside the view volume. -/
+theorem point_visible_iff_in_view_volume (vw : Viewer) (hR : vw.R.IsOrtho) (t : V3) :
+    pointVisible visCfg vw t [] = true ↔ InViewVolume vw t := by
+  rw [gen_cfg_reference]; exact Vis.point_visible_iff_in_view_volume vw hR t
+
+/-- **outside_never_visible** — a point outside the view volume is never reported visible. -/
+theorem outside_never_visible (vw : Viewer) (hR : vw.R.IsOrtho) (t : V3) (occ : List Box)
+    (hout : ¬ InViewVolume vw t) : pointVisible visCfg vw t occ = false := by
+  rw [gen_cfg_reference]; exact Vis.outside_never_visible vw hR t occ hout
+
+/-- **blocked_never_visible** — a point whose line of sight passes through an occluder is never reported visible. -/
+theorem blocked_never_visible (vw : Viewer) (hR : vw.R.IsOrtho) (t : V3) (occ : List Box) (b : Box)
+    (hb : b ∈ occ) (hM : b.M.IsOrtho) (hout : ¬ b.Contains vw.cam) (hm : SegMeets b vw.cam t) :
+    pointVisible visCfg vw t occ = false := by
+  rw [gen_cfg_reference]; exact Vis.blocked_never_visible vw hR t occ b hb hM hout hm
+
+/-- **point_visible_iff_clear** — the exact characterisation with box occluders. -/
+theorem point_visible_iff_clear (vw : Viewer) (hR : vw.R.IsOrtho) (t : V3) (occ : List Box)
+    (hM : ∀ b ∈ occ, b.M.IsOrtho) :
+    pointVisible visCfg vw t occ = true ↔
+      InViewVolume vw t ∧
+        ∀ b ∈ occ, b.Blocks Cfg.reference vw.cam (t.sub vw.cam) (t.sub vw.cam).normSq = false := by
+  rw [gen_cfg_reference]; exact Vis.point_visible_iff_clear vw hR t occ hM
+
+/-- **occluders_monotone** — adding occluders can turn visible into not visible, never the reverse. -/
+theorem occluders_monotone (vw : Viewer) (t : V3) (occ occ' : List Box) (hsub : ∀ b ∈ occ, b ∈ occ')
+    (h : pointVisible visCfg vw t occ' = true) : pointVisible visCfg vw t occ = true :=
+  Vis.occluders_monotone visCfg vw t occ occ' hsub h
+
+/-- **rigid_invariance** — a common rigid motion of viewer, target and occluders changes nothing. -/
+theorem rigid_invariance (Q : Mat3) (hQ : Q.IsOrtho) (c : V3) (vw : Viewer) (t : V3) (occ : List Box) :
+    pointVisible visCfg (vw.move Q c) (movePt Q c t) (occ.map (Box.move Q c)) = pointVisible visCfg vw t occ := by
+  rw [gen_cfg_reference]; exact Vis.rigid_invariance Q hQ c vw t occ
+
+/-- **rigid_invariance_object_viewer** — the same through `Object.canSee` with a camera offset. -/
+theorem rigid_invariance_object_viewer (Q : Mat3) (hQ : Q.IsOrtho) (c pos off : V3) (R : Mat3) (D : Rat)
+    (a0 a1 : Half) (t : V3) (occ : List Box) :
+    pointVisible visCfg (mkViewer visWrapCfg .object (movePt Q c pos) (Q.mul R) off D a0 a1)
+        (movePt Q c t) (occ.map (Box.move Q c)) =
+      pointVisible visCfg (mkViewer visWrapCfg .object pos R off D a0 a1) t occ := by
+  rw [gen_cfg_reference, gen_wrapcfg_reference]
+  exact Vis.rigid_invariance_object_viewer Q hQ c pos off R D a0 a1 t occ
+
+/-! ## the object branch, on the generated configuration -/
+
+/-- **object_occluders_monotone** -/
+theorem object_occluders_monotone (vw : Viewer) (rays : List V3) (tgt : Box) (occ occ' : List Box)
+    (hsub : ∀ b ∈ occ, b ∈ occ') (h : objectVisible visCfg vw rays tgt occ' = true) :
+    objectVisible visCfg vw rays tgt occ = true :=
+  Vis.object_occluders_monotone visCfg vw rays tgt occ occ' hsub h
+
+/-- **object_outside_never_visible** — an object wholly outside the view volume is never reported visible. -/
+theorem object_outside_never_visible (vw : Viewer) (hR : vw.R.IsOrtho) (rays : List V3) (tgt : Box)
+    (occ : List Box) (hh : 0 ≤ tgt.h.x ∧ 0 ≤ tgt.h.y ∧ 0 ≤ tgt.h.z) (hcam : ¬ tgt.Contains vw.cam)
+    (hout : ∀ p, tgt.Contains p → ¬ InViewVolume vw p) :
+    objectVisible visCfg vw rays tgt occ = false := by
+  rw [gen_cfg_reference]; exact Vis.object_outside_never_visible vw hR rays tgt occ hh hcam hout
+
+/-- **object_hidden_never_visible** — an object all of whose lines of sight are blocked is never reported visible. -/
+theorem object_hidden_never_visible (vw : Viewer) (hR : vw.R.IsOrtho) (rays : List V3) (tgt : Box)
+    (occ : List Box) (hh : 0 ≤ tgt.h.x ∧ 0 ≤ tgt.h.y ∧ 0 ≤ tgt.h.z)
+    (hhid : ∀ p, tgt.Contains p → ∃ b ∈ occ, b.M.IsOrtho ∧ ¬ b.Contains vw.cam ∧ SegMeets b vw.cam p) :
+    objectVisible visCfg vw rays tgt occ = false := by
+  rw [gen_cfg_reference]; exact Vis.object_hidden_never_visible vw hR rays tgt occ hh hhid
+
+/-- **object_hidden_behind_box** — the eight corners of the target blocked by one box occluder ⇒ not visible. -/
+theorem object_hidden_behind_box (vw : Viewer) (hR : vw.R.IsOrtho) (rays : List V3) (tgt wall : Box)
+    (occ : List Box) (hwall : wall ∈ occ) (hMw : wall.M.IsOrtho) (hMt : tgt.M.IsOrtho)
+    (hh : 0 ≤ tgt.h.x ∧ 0 ≤ tgt.h.y ∧ 0 ≤ tgt.h.z) (hcam : ¬ wall.Contains vw.cam)
+    (hne : ∀ c ∈ tgt.corners, c ≠ vw.cam)
+    (hc : ∀ c ∈ tgt.corners, wall.Blocks Cfg.reference vw.cam (c.sub vw.cam) (c.sub vw.cam).normSq = true) :
+    objectVisible visCfg vw rays tgt occ = false := by
+  rw [gen_cfg_reference]
+  exact Vis.object_hidden_behind_box vw hR rays tgt wall occ hwall hMw hMt hh hcam hne hc
+
+/-- the centre shortcut: an object whose centre is reported visible is reported visible -/
+theorem object_visible_of_centre (vw : Viewer) (rays : List V3) (tgt : Box) (occ : List Box)
+    (h : pointVisible visCfg vw tgt.c occ = true) : objectVisible visCfg vw rays tgt occ = true := by
+  rw [objectVisible_iff]; exact Or.inl h
+
+/-- partial form of "an object is visible whenever a substantial part of it lies in the view volume": proved only
+    for the part that contains the centre (what is missing: any statement about the ray grid) -/
+theorem object_visible_of_centre_in_volume_partial (vw : Viewer) (hR : vw.R.IsOrtho) (rays : List V3)
+    (tgt : Box) (h : InViewVolume vw tgt.c) : objectVisible visCfg vw rays tgt [] = true :=
+  object_visible_of_centre vw rays tgt [] ((point_visible_iff_in_view_volume vw hR tgt.c).mpr h)
+
+/-! ## negation witness: the code before the repair b69a50bf -/
+
+/-- `R⁻¹ t - p` instead of `R⁻¹ (t - p)` -/
+def rotateFirstCfg : Cfg := { Cfg.reference with translateFirst := false }
+
+/-- a viewer at (10,0,0) facing west (yaw 90°), view angles ≈ 74° × 74°, visible distance 20 -/
+def westViewer : Viewer := ⟨⟨10, 0, 0⟩, Mat3.ofQuat 1 0 0 1, 20, ⟨4 / 5, 3 / 5⟩, ⟨4 / 5, 3 / 5⟩⟩
+
+/-- With the old order of operations the viewer at (10,0,0) facing west could not see the point 5 m straight ahead,
+    although that point is in its view volume and the same scene translated to the origin is seen: the old code
+    was not invariant under a common translation of viewer and target. -/
+theorem rotate_first_not_rigid_invariant :
+    pointVisible rotateFirstCfg westViewer ⟨5, 0, 0⟩ [] = false ∧
+    InViewVolume westViewer ⟨5, 0, 0⟩ ∧
+    pointVisible rotateFirstCfg (westViewer.move Mat3.id ⟨-10, 0, 0⟩) (movePt Mat3.id ⟨-10, 0, 0⟩ ⟨5, 0, 0⟩) [] = true := by
+  decide +kernel
+
+/-- the repaired order sees it -/
+theorem reference_sees_point_ahead : pointVisible visCfg westViewer ⟨5, 0, 0⟩ [] = true := by
+  decide +kernel
+
+/-! ## the hypotheses are satisfiable by concrete non-trivial values -/
+
+example : westViewer.R.IsOrtho := Mat3.ofQuat_isOrtho 1 0 0 1 (by norm_num)
+example : (Mat3.ofQuat 1 2 (-3) 4).IsOrtho := Mat3.ofQuat_isOrtho _ _ _ _ (by norm_num)
+example : westViewer.a0.Valid ∧ westViewer.a1.ValidAlt := by
+  simp only [Half.Valid, Half.ValidAlt, westViewer]; norm_num
+-- point_visible_iff_in_view_volume / outside_never_visible: one point inside, one outside (behind the viewer)
+example : InViewVolume westViewer ⟨5, 1, 1⟩ ∧ ¬ InViewVolume westViewer ⟨15, 0, 0⟩ := by decide +kernel
+-- blocked_never_visible / occlusion_complete: a unit box between camera and target, camera outside it
+example : let b : Box := ⟨⟨7, 0, 0⟩, Mat3.ofQuat 2 0 0 1, ⟨1 / 2, 1 / 2, 1 / 2⟩⟩
+    b.M.IsOrtho ∧ ¬ b.Contains westViewer.cam ∧ b.Contains (westViewer.cam.add ((V3.sub ⟨5, 0, 0⟩ westViewer.cam).smul (3 / 5)))
+      ∧ pointVisible visCfg westViewer ⟨5, 0, 0⟩ [b] = false := by decide +kernel
+-- occluders_monotone: visible with an irrelevant occluder present, hence without it
+example : let b : Box := ⟨⟨7, 5, 0⟩, Mat3.id, ⟨1 / 2, 1 / 2, 1 / 2⟩⟩
+    pointVisible visCfg westViewer ⟨5, 0, 0⟩ [b] = true := by decide +kernel
+-- rigid_invariance: a genuine rotation
+example : (Mat3.ofQuat 1 2 3 4).IsOrtho ∧
+    pointVisible visCfg (westViewer.move (Mat3.ofQuat 1 2 3 4) ⟨3, -2, 7⟩) (movePt (Mat3.ofQuat 1 2 3 4) ⟨3, -2, 7⟩ ⟨5, 0, 0⟩) [] = true := by
+  decide +kernel
+-- object theorems: a box behind the viewer is certified outside; a box ahead has its centre visible
+example : let tgt : Box := ⟨⟨16, 0, 0⟩, Mat3.ofQuat 3 0 0 1, ⟨1, 1, 1⟩⟩
+    outsideCert westViewer tgt = true ∧ ¬ tgt.Contains westViewer.cam ∧ tgt.M.IsOrtho := by decide +kernel
+example : let tgt : Box := ⟨⟨4, 0, 0⟩, Mat3.ofQuat 3 0 0 1, ⟨1, 1, 1⟩⟩
+    objectVisible visCfg westViewer [] tgt [] = true ∧
+      insideCert westViewer ⟨⟨4, 0, 0⟩, Mat3.ofQuat 3 0 0 1, ⟨1 / 2, 1 / 2, 1 / 2⟩⟩ ⟨0, 1, 0⟩ = true := by
+  decide +kernel
+-- object_hidden_never_visible: a wall hides the target from every candidate ray
+example : let tgt : Box := ⟨⟨4, 0, 0⟩, Mat3.id, ⟨1 / 2, 1 / 2, 1 / 2⟩⟩
+    let wall : Box := ⟨⟨7, 0, 0⟩, Mat3.id, ⟨1 / 8, 4, 4⟩⟩
+    objectVisible visCfg westViewer [⟨0, 1, 0⟩, ⟨1 / 10, 1, 0⟩, ⟨0, 1, 1 / 10⟩] tgt [wall] = false ∧
+      objectVisible visCfg westViewer [⟨0, 1, 0⟩] tgt [] = true := by decide +kernel
+
+-- object_hidden_behind_box: the eight corners of the target are blocked by the wall
+example : let tgt : Box := ⟨⟨4, 0, 0⟩, Mat3.id, ⟨1 / 2, 1 / 2, 1 / 2⟩⟩
+    let wall : Box := ⟨⟨7, 0, 0⟩, Mat3.id, ⟨1 / 8, 4, 4⟩⟩
+    (∀ c ∈ tgt.corners, wall.Blocks Cfg.reference westViewer.cam (c.sub westViewer.cam) (c.sub westViewer.cam).normSq = true)
+      ∧ ¬ wall.Contains westViewer.cam := by decide +kernel
+-- outsideCert through the altitude cone: a box high above a viewer with a narrow vertical window
+example : outsideCert westViewer ⟨⟨6, 0, 9⟩, Mat3.ofQuat 2 1 0 0, ⟨1, 1, 1⟩⟩ = true
+    ∧ decide (cornersOffBand westViewer ⟨⟨6, 0, 9⟩, Mat3.ofQuat 2 1 0 0, ⟨1, 1, 1⟩⟩ 1) = true := by decide +kernel
+
 end Scenic.C17
